@@ -374,12 +374,18 @@ impl OutstationSession {
     ) -> RunError {
         loop {
             if let Err(err) = self.run_idle_state(io, reader, writer, database).await {
-                self.state.reset();
-                // events of a response that was never confirmed must be offered again
-                database.reset();
+                self.end_session(database);
                 return err;
             }
         }
+    }
+
+    /// forget everything that belongs to one communication session; also called when the future
+    /// returned by `run` is dropped because a new connection replaces the session
+    pub(crate) fn end_session(&mut self, database: &mut DatabaseHandle) {
+        self.state.reset();
+        // events of a response that was never confirmed must be offered again
+        database.reset();
     }
 
     async fn write_unsolicited(
